@@ -350,3 +350,33 @@ def pos(node) -> int:
     if o is None:
         return getattr(node, "lineno", 0) * 1000 + getattr(node, "col_offset", 0)
     return o
+
+
+def attr_stable_between(prog, fn, attr: str, def_stmt, use_node) -> bool:
+    """``self.<attr>`` is not (re)assigned between the statement that read it into a local and the use of that local:
+    no direct store and no call that can reach a method storing it, among the nodes positioned between the two and - when
+    the use sits in a loop that does not contain the definition - anywhere in that loop."""
+    from ..model import FunctionInfo
+
+    if fn.cls is None:
+        return False
+    writers = {m for m, t, v, s, k in attr_stores(prog, fn.cls, attr)}
+    lo, hi = pos(def_stmt), pos(use_node)
+    region = []
+    for n in ast.walk(fn.node):
+        p_ = getattr(n, "_ord", None)
+        if p_ is not None and lo < p_ < hi:
+            region.append(n)
+    anc = use_node
+    def_anc = {id(a) for a in prog.ancestors(def_stmt)}
+    for a in prog.ancestors(use_node):
+        if isinstance(a, (ast.For, ast.While)) and id(a) not in def_anc:
+            region.extend(ast.walk(a))
+    for n in region:
+        if isinstance(n, ast.Attribute) and n.attr == attr and isinstance(n.value, ast.Name) and n.value.id == "self" and not isinstance(n.ctx, ast.Load):
+            return False
+        if isinstance(n, ast.Call):
+            for tgt in prog.resolve_call(fn, n):
+                if isinstance(tgt, FunctionInfo) and (tgt in writers or writers & prog.reachable_from(tgt)):
+                    return False
+    return True
